@@ -93,12 +93,12 @@ def gen_file(r, knobs=None):
             extra = (" f=%d" % field) if field is not None else ""
             lines.append("attr %s %d %d %d%s" % (hx(fresh("at")), nt, cnt, r.randrange(1, 10 ** 6), extra))
 
-    def anns(p=0.3):
+    def anns(p=0.3, image=False):
         for kind in ("label", "desc"):
             for _ in range(2 if r.random() < 0.1 else 1):
                 if r.random() < p:
                     txt = fresh("ann_" + kind) + " " + "".join(r.choice("abc xyz\n.") for _ in range(r.randrange(0, 24)))
-                    lines.append("ann %s %s" % (kind, hx(txt)))
+                    lines.append("ann %s %s%s" % (kind, hx(txt), (" atag=%d" % r.choice([306, 302])) if image else ""))
 
     # vgroups
     groups = []   # (id, path)
@@ -215,6 +215,7 @@ def gen_file(r, knobs=None):
             lines.append("pal %d" % r.randrange(1, 10 ** 6))
             has_imgpal = True
         attrs(2)
+        anns(0.25, image=True)
         shadow.append(dict(path=ppath + name, kind="gr", rank=2, dims=[xd, yd], bytes=xd * yd * NTSIZE[nt & 0xfff], rec=False,
                            empty=False))
 
